@@ -274,11 +274,17 @@ pub fn run_case(case: &mut Case) {
                 });
                 // a word for the left side that repeats, or that is absent from the line, takes
                 // the moved word: the line is a different sentence then
+                // (only words declared in front of the strict one: it is asked before the later ones
+                // and refuses the word for good)
+                let strict_id = match &units[*wi].kind {
+                    UKind::Word { item, .. } => *item,
+                    _ => 0,
+                };
                 let left_open = {
                     let mut items = Vec::new();
                     b.spec.root.all_items(&mut items);
                     items.iter().any(|i| match &i.leaf {
-                        Leaf::Pos { strict, .. } if *strict != Strict::Strict => {
+                        Leaf::Pos { strict, .. } if *strict != Strict::Strict && i.id < strict_id => {
                             let repeats = b.spec.root.path_to(i.id).map_or(false, |p| {
                                 p.iter().any(|e| matches!(e, PathEl::Wrap(w, _) if w.repeats()))
                             });
